@@ -50,10 +50,17 @@ def build (H : Bytes → Bytes) (leaf : Nat → Bytes) (mtch : Nat → Bool) (n 
       else (true :: l.1, l.2)
     else ([false], [calcHash H leaf n (h + 1) pos])
 
-/-- byte `i` of the serialised flag bits: `vBytes[p / 8] |= vBits[p] << (p % 8)`; missing bits are zero padding -/
+/-- a byte from its eight bits, least significant first -/
+def byteOfBits (b0 b1 b2 b3 b4 b5 b6 b7 : Bool) : Nat :=
+  b0.toNat + 2 * b1.toNat + 4 * b2.toNat + 8 * b3.toNat + 16 * b4.toNat + 32 * b5.toNat + 64 * b6.toNat + 128 * b7.toNat
+
+/-- bit `p` of the bit vector; bits past the end are zero padding -/
+def bitAt (bits : List Bool) (p : Nat) : Bool := bits[p]?.getD false
+
+/-- byte `i` of the serialised flag bits: `vBytes[p / 8] |= vBits[p] << (p % 8)` -/
 def flagByte (bits : List Bool) (i : Nat) : UInt8 :=
-  let b (k : Nat) : Nat := if bits[8 * i + k]?.getD false then 1 else 0
-  UInt8.ofNat (b 0 + 2 * b 1 + 4 * b 2 + 8 * b 3 + 16 * b 4 + 32 * b 5 + 64 * b 6 + 128 * b 7)
+  UInt8.ofNat (byteOfBits (bitAt bits (8 * i)) (bitAt bits (8 * i + 1)) (bitAt bits (8 * i + 2)) (bitAt bits (8 * i + 3))
+    (bitAt bits (8 * i + 4)) (bitAt bits (8 * i + 5)) (bitAt bits (8 * i + 6)) (bitAt bits (8 * i + 7)))
 
 /-- `vBytes.resize((vBits.size() + 7) / 8)` and the bit placement above -/
 def packBits (bits : List Bool) : Bytes := (List.range ((bits.length + 7) / 8)).map (flagByte bits)
